@@ -23,6 +23,7 @@ ASSUMPTIONS = [
     "stdin/stdout of cli.main are pure-Python streams; BytesIO seen by fickling.fickle is the pure-Python stream",
     "'the k-th with the injection applied' is defined as Pickled.insert_python_eval on a fresh parse of the k-th input pickle with the same flags (C08 checks what that injection means)",
     "negative --inject-target values are outside the property's quantifier (targets 0..n)",
+    "leaving --inject-target out is taken to mean target 0, the default the CLI documents (inject_from_file compares it with an explicit 0)",
     "decompiled program is executed against inert stubs (vf.refvm.exec_decompiled)",
 ]
 
@@ -105,6 +106,11 @@ def inject_from_file(n: int, k: int, fl: int, x: int) -> bool:
             os.close(fd)
             flags = (["--run-last"] if fl & 1 else []) + (["--replace-result"] if fl & 2 else [])
             rc, out, txt, _, _ = run_cli(["fickling", path, "--inject", CODE, "--inject-target", str(k)] + flags, b"")
+            if k == 0:
+                # the documented default target is the first pickle: leaving the option out means target 0
+                rc_d, out_d, _, _, _ = run_cli(["fickling", path, "--inject", CODE] + flags, b"")
+                if (rc_d, out_d) != (rc, out):
+                    return False
             with open(path, "rb") as f:
                 untouched = f.read() == b"".join(parts)
         finally:
